@@ -53,6 +53,26 @@ def run(ctx):
         a = ((m.get("case") or {}).get("q") or {}).get("agg") or {}
         ctx.violation("multifrac:agg:%s:%s:%s" % (a.get("func"), m.get("path"), (m.get("what") or "")[:24]), m,
                       what="histogram / aggregation over split documents differs from one fraction holding everything: " + str(m.get("what"))[:160])
+    # fractions are also skipped by their time range (borders, and for sealed fractions with late documents the
+    # per-minute occupancy map): stores of TimePrune.tla (C14's module: fractions with minute-scale time structure,
+    # queries cutting them) answered end to end must equal the answer over all documents
+    import re
+    tdrv = vlib.build_driver("timeprune")
+    tf = os.path.join(ctx.scratch, "mf-time.jsonl")
+    r = vlib.run_tlc(ctx, "TimePrune.tla", "TimePrune_real.cfg", case_file=tf, heap="3g", timeout=3400, workers=1,
+                     simulate="num=%d" % (120 if quick else 600), depth=7)
+    if r.violated:
+        raise vlib.Infra("TLC: %s violated in TimePrune.tla" % r.violated)
+    vlib.require_tlc_ok(r, "TimePrune real (for C05)")
+    mism, summ, _ = vlib.run_cases(ctx, tdrv, ["-mode", "e2e", "-workers", str(vlib.NCPU)], tf, label="split-time", timeout=3000, chunk=500)
+    for k in tot:
+        tot[k] += summ[k]
+    for m in mism:
+        if m.get("level") == "conformance":
+            continue
+        what = re.sub(r"\d+", "N", str(m.get("what", "")))
+        ctx.violation("multifrac:time:%s:%s" % (m.get("path", m.get("form")), what[:48]), m,
+                      what="a store whose fractions are pruned by time range answers differently from the reference over all documents: " + str(m.get("what"))[:160])
     ctx.cov["traces_validated_against_impl"] = tot["cases"]
     ctx.cov["evaluations"] = tot["evals"]
     ctx.cov["distinct_nontrivial"] = tot["nontrivial"]
